@@ -229,6 +229,7 @@ struct OneRun {
   results: Vec<Vec<Res>>,
   steps: usize,
   events: usize,
+  parks: usize,
   choices: Vec<usize>,
   trace: Vec<sched::Rec>,
 }
@@ -319,7 +320,7 @@ fn run_once(sc: &Scenario, policy: Policy, record: bool) -> OneRun {
   }
   let rr = run(policy, 200_000, record, bodies);
   let results = results.lock().unwrap().clone();
-  OneRun { outcome: rr.outcome, results, steps: rr.steps, events: rr.trace.len(), choices: rr.choices, trace: rr.trace }
+  OneRun { outcome: rr.outcome, results, steps: rr.steps, events: rr.trace.len(), parks: rr.parks, choices: rr.choices, trace: rr.trace }
 }
 
 /// property monitors over one completed/aborted run; returns (clause, detail)
@@ -425,6 +426,7 @@ fn main() {
     let sc = parse(&line);
     let mut steps = 0usize;
     let mut events = 0usize;
+    let mut parks = 0usize;
     let mut fail: Option<(String, String, usize, u64, OneRun)> = None;
     let mut first: Option<OneRun> = None;
     for i in 0..sc.runs {
@@ -433,6 +435,7 @@ fn main() {
       let r = run_once(&sc, policy, sc.trace || i == 0);
       steps += r.steps;
       events += r.events;
+      parks += r.parks;
       if let Some((c, d)) = judge(&sc, &r) {
         fail = Some((c, d, i, seed, r));
         break;
@@ -455,7 +458,7 @@ fn main() {
         }
       }
       None => {
-        writeln!(out, "ok runs={} steps={} events_recorded={}", sc.runs, steps, events).unwrap();
+        writeln!(out, "ok runs={} steps={} events_recorded={} blocking_parks={}", sc.runs, steps, events, parks).unwrap();
         if sc.trace {
           if let Some(r) = first {
             namer.prime(&r.trace);
